@@ -116,6 +116,7 @@ func (c04Engine) Gen(seed uint64, idx int, tier string) interface{} {
 	cfg := GenCfg{Budget: r.Range(4, 30), Calls: true, Dyn: r.Chance(1, 2), Failing: true, Strings: true, Closures: r.Chance(3, 4), Maps: r.Chance(1, 2),
 		Objects: r.Chance(2, 3), ShortPred: r.Chance(1, 2), NilSafe: r.Chance(1, 2), SliceCall: true, ConstFns: r.Chance(1, 2)}
 	cfg.AnyUsable = sc.Rep != RepMap || (sc.Env.Any != nil && sc.Env.Any.Kind == "int")
+	cfg.MapRep = sc.Rep == RepMap
 	g := NewGen(r.Fork(), cfg)
 	sc.Tree = genRoot(g, r)
 	sc.Source = Print(sc.Tree, sc.Layout).Src
